@@ -12,6 +12,7 @@ CONSTANTS
   DEV_CreateThroughLink = FALSE
   DEV_AbsInside = TRUE
   DEV_DirThroughLink = FALSE
+  DEV_WalkRawName = FALSE
   DEV_LinkRawName = FALSE
 INVARIANT TypeOK
 CHECK_DEADLOCK FALSE
